@@ -252,7 +252,8 @@ def u_close(c):
     c.cover("close/%s" % mode)
     c.oblige("post/closed", s._closed is True)
     if already:
-        c.oblige("post/close-on-a-closed-stream-does-not-close-or-record-again", [x for x in log if x != "signal_closed"] == [] and s.error is None and len(signalled) <= 1)
+        # (a read started after the close and found unsatisfiable is failed through close(): the signal must still run)
+        c.oblige("post/close-on-a-closed-stream-only-signals", log == ["signal_closed"] and s.error is None)
         return
     c.oblige("post/signals-closed-exactly-once-and-last", len(signalled) == 1 and log[-1] == "signal_closed")
     c.oblige("post/fd-closed-once-handler-removed", log.count("close_fd") == 1 and s._state is None
